@@ -632,6 +632,14 @@ class Parser(IdlVisitor):
                                 ))
         except FileNotFoundError as e:
             raise FileNotFoundException(Path(e.filename))
+        except UnicodeDecodeError as e:
+            valid_prefix = e.object[:e.start]
+            cursor = Cursor(line=valid_prefix.count(b'\n') + 1,
+                            col=len(valid_prefix.rsplit(b'\n', 1)[-1].decode('utf-8', errors='replace')))
+            self.errors.append(Parser.ParsingException(
+                f"The file is not valid UTF-8 text: {e.reason}",
+                Position(start=cursor, end=cursor, file=self.idl)
+            ))
         except RecursionError:
             self.errors.append(Parser.ParsingException(
                 f"Circular import detected: file {self.idl} indirectly imports itself!",
